@@ -39,6 +39,91 @@ func isLow32(v ssa.Value, src ssa.Value) bool {
 
 func stripConvTo(v ssa.Value) ssa.Value { return v }
 
+// asPopcountLoop: v is the round counter of `n := 0; for m := x; m != 0; m &= m-1 { n++ }` (each round clears the
+// lowest set bit of m), i.e. the popcount of x. Returns x.
+func asPopcountLoop(v ssa.Value) (ssa.Value, bool) {
+	n, ok := stripConv(v).(*ssa.Phi)
+	if !ok || !isLoopHeaderPhi(n) {
+		return nil, false
+	}
+	hb := n.Block()
+	for i, e := range n.Edges {
+		if hb.Dominates(hb.Preds[i]) {
+			if x, k, ok := asBinConst(e, token.ADD); !ok || x != ssa.Value(n) || k != 1 {
+				return nil, false
+			}
+		} else if k, ok := constInt64(stripConv(e)); !ok || k != 0 {
+			return nil, false
+		}
+	}
+	for _, ins := range hb.Instrs {
+		m, isPhi := ins.(*ssa.Phi)
+		if !isPhi {
+			break
+		}
+		if m == n {
+			continue
+		}
+		var init ssa.Value
+		okM := true
+		for i, e := range m.Edges {
+			if !hb.Dominates(hb.Preds[i]) {
+				init = e
+				continue
+			}
+			a, b, ok := asBin(e, token.AND)
+			if !ok {
+				okM = false
+				break
+			}
+			if b == ssa.Value(m) {
+				a, b = b, a
+			}
+			x, k, okS := asBinConst(b, token.SUB)
+			if a != ssa.Value(m) || !okS || x != ssa.Value(m) || k != 1 {
+				okM = false
+			}
+		}
+		if !okM || init == nil {
+			continue
+		}
+		// the loop runs exactly while m != 0
+		ifi, ok := hb.Instrs[len(hb.Instrs)-1].(*ssa.If)
+		if !ok {
+			continue
+		}
+		bo, ok := ifi.Cond.(*ssa.BinOp)
+		if !ok || (bo.Op != token.NEQ && bo.Op != token.EQL) {
+			continue
+		}
+		var other ssa.Value
+		if bo.X == ssa.Value(m) {
+			other = bo.Y
+		} else if bo.Y == ssa.Value(m) {
+			other = bo.X
+		}
+		if k, isK := constInt64(stripConv(other)); other == nil || !isK || k != 0 {
+			continue
+		}
+		body := hb.Succs[0]
+		if bo.Op == token.EQL {
+			body = hb.Succs[1]
+		}
+		if !hb.Dominates(body) || !reaches(body, hb, nil) || body == hb {
+			continue
+		}
+		exit := hb.Succs[1]
+		if bo.Op == token.EQL {
+			exit = hb.Succs[0]
+		}
+		if reaches(exit, hb, nil) {
+			continue // the other successor must leave the loop
+		}
+		return init, true
+	}
+	return nil, false
+}
+
 // pathLayoutProblem: v must be bits<<32 | lowmask(length)<<(height-length), the path word layout NewPath builds;
 // returns "" when it is.
 func pathLayoutProblem(fa *FA, v ssa.Value, isBits func(ssa.Value) bool, length, height Lin) string {
@@ -127,6 +212,13 @@ func runC10(c *Ctx, w *World, r *Report) {
 		fn := fns[n]
 		bad := ""
 		for _, ret := range returnsOf(fn) {
+			if arg, isLoop := asPopcountLoop(ret.Results[0]); isLoop {
+				// the count of the rounds of `for m := x; m != 0; m &= m-1` is the popcount of x
+				if !isLow32(arg, fn.Params[0]) {
+					bad = "PathLen counts the bits of something other than the low 32 bits"
+				}
+				continue
+			}
 			call, ok := asCall(ret.Results[0], "math/bits.OnesCount32", "math/bits.OnesCount64")
 			if !ok || !isLow32(call.Common().Args[0], fn.Params[0]) {
 				bad = "PathLen is not the popcount of the low 32 bits"
@@ -144,10 +236,12 @@ func runC10(c *Ctx, w *World, r *Report) {
 				continue
 			}
 			L := fa.Lin(ret.Results[0])
-			okH := L.K == 32 && len(L.T) == 1
+			okH := (L.K == 32 || L.K == 64) && len(L.T) == 1
 			for atom, coef := range L.T {
 				call, ok := fa.AtomValue(atom).(*ssa.Call)
-				if !ok || coef != -1 || calleeName(call.Common()) != "math/bits.LeadingZeros32" || !isLow32(call.Common().Args[0], fn.Params[0]) {
+				// the low 32 bits zero-extended to 64 have 32 more leading zeros: 64 - LeadingZeros64 = 32 - LeadingZeros32
+				want := map[int64]string{32: "math/bits.LeadingZeros32", 64: "math/bits.LeadingZeros64"}[L.K]
+				if !ok || coef != -1 || calleeName(call.Common()) != want || !isLow32(call.Common().Args[0], fn.Params[0]) {
 					okH = false
 				}
 			}
